@@ -17,6 +17,132 @@ def utc(t):
     return datetime.fromtimestamp(t, tz=timezone.utc)
 
 
+# ----------------------------------------------------------------------------------- fractional seconds
+# A case with "scale": q is generated, modelled and judged in integer units of 1/q second (exact arithmetic), but RUN in
+# fractional seconds: a unit time t becomes SUB + (t - SUB)/q seconds (float clock of TestScheduler, or a datetime on
+# HistoricalScheduler, optionally shifted to a wall-clock sized epoch: "wall"), a duration d becomes d/q seconds (a float, or a
+# timedelta with "td").  Gaps exactly equal to a window / due time stay exactly equal; outputs are mapped back exactly.
+WALL = 1715947200          # 2024-05-17 12:00:00 UTC
+
+
+def q_of(case):
+    return case.get("scale") or 1
+
+
+def real_abs(case, t):
+    q = q_of(case)
+    return t if q == 1 else SUB + (t - SUB) / q
+
+
+def real_rel(case, d):
+    q = q_of(case)
+    return d if q == 1 else d / q
+
+
+def real_dur(case, d, hist=False):
+    q = q_of(case)
+    if case.get("td") or (hist and q > 1):
+        return timedelta(microseconds=d * 1000000 // q)
+    if hist:
+        return timedelta(seconds=d)
+    return d if q == 1 else d / q
+
+
+def abs_dt(case, t):
+    """absolute unit time -> aware datetime (exact)"""
+    q = q_of(case)
+    return utc((WALL if case.get("wall") else 0) + SUB) + timedelta(microseconds=(t - SUB) * 1000000 // q)
+
+
+def unit_of_seconds(case, secs):
+    """float seconds of a virtual clock -> unit time (an int when it is one, else the float: a visible mismatch)"""
+    q = q_of(case)
+    if q == 1:
+        return int(secs)
+    x = (secs - SUB) * q
+    return SUB + round(x) if abs(x - round(x)) < 1e-4 else SUB + x
+
+
+def unit_of_dt(case, dt):
+    """aware datetime -> unit time, exactly (integer microsecond arithmetic)"""
+    q = q_of(case)
+    delta = dt - utc((WALL if case.get("wall") else 0) + SUB)
+    n, rem = divmod(delta, timedelta(microseconds=1000000 // q))
+    return SUB + n if not rem else SUB + delta.total_seconds() * q
+
+
+def unit_of_span(case, td):
+    q = q_of(case)
+    n, rem = divmod(td, timedelta(microseconds=1000000 // q))
+    return n if not rem else td.total_seconds() * q
+
+
+def _real_tl(case, tl, rel):
+    return [[(real_rel(case, t) if rel else real_abs(case, t)), n] for t, n in tl]
+
+
+def realize(case):
+    """the case as it is RUN (times in seconds); identity for scale 1"""
+    if q_of(case) == 1:
+        return case
+    c = dict(case)
+    c["orig"] = case
+    c["msgs"] = _real_tl(case, case["msgs"], case["src"] == "cold")
+    for k in ("d", "period"):
+        if k in c:
+            c[k] = real_dur(case, case[k])
+    if "at" in c:
+        c["at"] = real_abs(case, case["at"]) if case.get("abs") else real_dur(case, case["at"])
+    if c.get("sub2") is not None:
+        c["sub2"] = real_abs(case, case["sub2"])
+    for k in ("other", "sampler"):
+        if c.get(k):
+            c[k] = {"src": case[k]["src"], "msgs": _real_tl(case, case[k]["msgs"], case[k]["src"] == "cold")}
+
+    def inner(tl):
+        if isinstance(tl, dict):
+            return {"timer": real_rel(case, tl["timer"])} if "timer" in tl else tl
+        return _real_tl(case, tl, True)
+
+    if "inners" in c:
+        c["inners"] = [inner(tl) for tl in case["inners"]]
+    for k in ("first", "subdelay"):
+        if c.get(k) is not None:
+            c[k] = inner(case[k])
+    return c
+
+
+def gen_scale(rng, c, p=0.3, qs=(10, 100), wall_ok=False):
+    """turn a generated case into a fractional-seconds one (same unit timeline, run at 1/q second per unit)"""
+    if rng.random() < p:
+        c["scale"] = rng.choice(qs)
+        if rng.random() < 0.4:
+            c["td"] = True
+        if wall_ok and rng.random() < 0.5:
+            c["wall"] = True
+
+
+def unit_messages(case, messages):
+    """Recorded messages of a MockObserver -> [[unit time, notif], ...]"""
+    out = []
+    for m in messages:
+        n = m.value
+        t = unit_of_seconds(case, m.time)
+        if n.kind == "N":
+            out.append([t, ["N", enc(n.value)]])
+        elif n.kind == "E":
+            out.append([t, ["E", fw.err_name(n.exception)]])
+        else:
+            out.append([t, ["C"]])
+    return out
+
+
+def unit_subs(case, subscriptions):
+    INF = 9223372036854775807
+    return [[unit_of_seconds(case, s.subscribe), None if s.unsubscribe >= INF else unit_of_seconds(case, s.unsubscribe)]
+            for s in subscriptions]
+
+
 # ----------------------------------------------------------------------------------- generators
 def gen_times(rng, n, d, marks, lo=SUB - 3, hi=420):
     """n non-decreasing times: bursts (gap 0), gaps around the due time d (d-1, d, d+1), snaps to / around the marks."""
@@ -257,8 +383,8 @@ def _run_test_once(case, build, sources, subs_at, no_sched=False):
         return {"raised": e.name}
     except Exception as e:  # noqa
         return {"raised": type(e).__name__}
-    return {"outs": [fw.messages_json(o.messages) for o in observers], "leaks": guard.leaks,
-            "subs": [fw.subs_json(s.subscriptions) if s is not None else None for s in srcs]}
+    return {"outs": [unit_messages(case, o.messages) for o in observers], "leaks": guard.leaks,
+            "subs": [unit_subs(case, s.subscriptions) if s is not None else None for s in srcs]}
 
 
 def run_test(case, build, sources=("msgs",), no_sched=False):
@@ -358,14 +484,14 @@ def _run_hist_once(case, build, subs_at):
             return OnCompleted()
         return OnError(InjectedError(n[1]))
 
-    recs = [Recorded(timedelta(seconds=t) if cold else utc(t), note(n)) for t, n in case["msgs"]]
+    recs = [Recorded(real_dur(case, t, hist=True) if cold else abs_dt(case, t), note(n)) for t, n in case["msgs"]]
     xs = (ColdObservable if cold else HotObservable)(sched, recs)
     outs = [[] for _ in subs_at]
     box = {}
     disps = []
 
     def secs():
-        return int(sched.to_seconds(sched.now))
+        return unit_of_dt(case, sched.now)
 
     def do_create(s, st):
         box["o"] = build(sched, xs)
@@ -381,10 +507,10 @@ def _run_hist_once(case, build, subs_at):
         for d in disps:
             d.dispose()
 
-    sched.schedule_absolute(utc(100), do_create)
+    sched.schedule_absolute(abs_dt(case, SUB) - timedelta(seconds=100), do_create)
     for t, out in zip(subs_at, outs):
-        sched.schedule_absolute(utc(t), mk_sub(out))
-    sched.schedule_absolute(utc(STOP), do_dispose)
+        sched.schedule_absolute(abs_dt(case, t), mk_sub(out))
+    sched.schedule_absolute(abs_dt(case, SUB) + timedelta(seconds=STOP - SUB), do_dispose)
     try:
         with guard():
             sched.start()
@@ -397,8 +523,9 @@ def _run_hist_once(case, build, subs_at):
 
     def sec(x):
         if isinstance(x, (int, float)):
-            return None if x >= 9223372036854775807 else int(x)
-        return int(sched.to_seconds(x))
+            # ColdObservable records its unsubscription as int(seconds since the epoch)
+            return None if x >= 9223372036854775807 else unit_of_dt(case, utc(x))
+        return unit_of_dt(case, x)
 
     return {"outs": outs, "subs": [[[sec(s.subscribe), sec(s.unsubscribe)] for s in xs.subscriptions]]}
 
